@@ -2,7 +2,7 @@ SPEC = dict(
     props_file="Props/C34.v",
     level="proof",
     observers=[dict(cmd="obs_lock", imports=["Model.Lock"], case_type="Lock.case", check="Lock.check_case",
-                    n={"quick": 320, "thorough": 6000}, shard=20, timeout={"quick": 1800, "thorough": 7200})],
+                    n={"quick": 320, "thorough": 3000}, shard=20, timeout={"quick": 1800, "thorough": 7200})],
     search_factor=6,
     rule="scripted scenarios with 2-4 rueidislock lockers (separate clients, majority 1-3, PX and PXAT scripts) on one fake "
          "server running the real lock scripts under mini-Lua: lock/unlock rounds, simultaneous TryWithContext races, "
